@@ -813,6 +813,11 @@ pub struct ChainCase {
 	pub post: Vec<RawBlock>,
 	/// extend by >= 60 blocks, compact again, fork again
 	pub second: Option<Second>,
+	/// before the first compaction the node learns the header (not the body) of one further block: its
+	/// header head is one ahead of its body head, as during header-first relay and sync. The horizon of
+	/// the compaction is a matter of the BODY head
+	#[serde(default)]
+	pub header_ahead: bool,
 }
 
 fn chain_tx() -> impl Strategy<Value = RawTx> {
@@ -855,8 +860,9 @@ pub fn chain_strategy(second_weight: f64) -> impl Strategy<Value = ChainCase> {
 		prop::bool::weighted(0.4),
 		prop::collection::vec(chain_block(0..2), 0..=2),
 		prop::option::weighted(second_weight, (0u8..4, 1u8..=20, any::<bool>()).prop_map(|(spend_every, depth, reopen)| Second { spend_every, depth, reopen })),
+		prop::bool::weighted(0.3),
 	)
-		.prop_map(|(pre, depth, extra, fork, reopen, post, second)| ChainCase {
+		.prop_map(|(pre, depth, extra, fork, reopen, post, second, header_ahead)| ChainCase {
 			pre,
 			depth,
 			extra,
@@ -864,6 +870,7 @@ pub fn chain_strategy(second_weight: f64) -> impl Strategy<Value = ChainCase> {
 			reopen,
 			post,
 			second,
+			header_ahead,
 		})
 }
 
@@ -1038,6 +1045,15 @@ pub fn check_chain(ctx: &Ctx, case: &ChainCase, counting: bool) -> PResult {
 		run.add(&raw, &format!("pre block {}", i))?;
 	}
 	let spends_pre = run.spends;
+	if case.header_ahead {
+		// the header of the next block arrives before its body (the body never does)
+		let raw = RawBlock { parent: 0, cb_key: 3, txs: vec![], dt: 60, diff: 1, neg: Neg::None, neg_pick: 0 };
+		let built = run.w.build(run.cb.c(), &raw, run.head).map_err(|e| Fail::new("harness:builder", format!("header ahead: {}", e)))?;
+		run.cb.c().process_block_header(&built.block.header, opts(PowMode::Real)).map_err(|e| Fail::new("valid-header-rejected", format!("header of the next block: {}", err_name(&e))))?;
+		if counting {
+			ctx.ev.class("chain:compaction_with_header_head_ahead_of_body_head");
+		}
+	}
 	let eff1 = run.compact("first compaction")?;
 	if case.reopen {
 		let roots = roots_of(&run.cb)?;
@@ -1170,6 +1186,28 @@ pub fn run(ctx: &Ctx) -> HResult<()> {
 	// part chain
 	let t1 = std::time::Instant::now();
 	let ccases = ctx.n(32, 320);
+	// directed: the block just inside the horizon (head - 19) spends a sibling pair of the oldest outputs,
+	// the header head is one ahead at compaction time, then a fork from the horizon (depth 20) wins
+	{
+		let old_pair = RawBlock {
+			parent: 0,
+			cb_key: 0,
+			txs: vec![RawTx { ins: vec![65535, 65534], outs: vec![RawOut { kind: 0, amt: 1, key: 1 }], fee: 1, kern: 0, zero_offset: false, chain_prev: false }],
+			dt: 60,
+			diff: 1,
+			neg: Neg::None,
+			neg_pick: 0,
+		};
+		let empty = |k: u8| RawBlock { parent: 0, cb_key: k, txs: vec![], dt: 60, diff: 1, neg: Neg::None, neg_pick: 0 };
+		let mut pre = vec![old_pair];
+		pre.extend((0..19).map(|_| empty(0)));
+		let directed = ChainCase { pre, depth: 20, extra: 1, fork: vec![empty(2)], reopen: false, post: vec![], second: None, header_ahead: true };
+		if c02::base(ctx).is_ok() {
+			if let Ok(Err(f)) | Err(f) = catch(|| check_chain(ctx, &directed, true)) {
+				ctx.report("chain", &f.sig, serde_json::to_value(&directed).unwrap(), &f.msg);
+			}
+		}
+	}
 	if let Some((case, f)) = pbt_proc(ctx, "chain", ccases, 16) {
 		ctx.report("chain", &f.sig, case, &f.msg);
 	}
